@@ -83,7 +83,7 @@ func (g *G) MsgStress(allowPlural bool) []Cmd {
 		return ph{expr: &Expr{Op: "ref", Name: holder, Access: []Access{{Kind: "key", Key: id}}}}
 	}
 	tags := []string{"<a href=\"u\">", "</a>", "<b>", "</b>", "<br/>", "<br>", "<i>", "</i>", "<span class=\"c\">", "</span>", "<img src=\"i.png\"/>", "<a href=\"other\">", "<p>", "<li>", "<em>", "<h1>", "<A>", "<ul>", "</ul>", "<ol>", "</li>", "<h2>", "</h1>", "<input type=\"t\"/>", "<tBody>", "<TD>", "</em>", "<img src=\"j.png\">", "<br />", "<x1y>"}
-	words := []string{"Hello ", "you have ", " new items", " and ", "!", ", ", "Click ", "here", " from ", "{sp}"}
+	words := []string{"zero\ufeffwidth ", "Hello ", "you have ", " new items", " and ", "!", ", ", "Click ", "here", " from ", "{sp}"}
 
 	defined := map[string]bool{}
 	var lets []Cmd
